@@ -76,6 +76,9 @@ def check_filter(ctx, kp, d, agrid, E, inc, exc, k, case):
         kw['exclude'] = form(kp, exc, k // 4)
     out, err = kpx.dumps(d, encoding=kpx.Enc.eKern, **kw)
     c2 = dict(case, include=inc, exclude=exc)
+    if k % 3 == 1:
+        # a third of the selections also as the final category collection of a long-lived ExportOptions object (set, list or tuple)
+        kpx.shared_options_check(ctx, d, dict(kw, encoding=kpx.Enc.eKern), out, err, c2)
     if err is not None:
         ctx.violation('filtered-export-raises', f'include={inc} exclude={exc}: {type(err).__name__}: {err}', c2)
         return
